@@ -10,3 +10,8 @@ open GoSQLXModel
 #print axioms Props.C18.responses_of_history
 #print axioms Props.C18.framing_exact
 #print axioms Props.C18.framing_stream
+#print axioms Lsp.run_get_eq_docAfter
+#print axioms Lsp.keys_nodup
+#print axioms Props.C18.document_is_its_own_history
+#print axioms Props.C18.other_documents_invisible
+#print axioms Props.C18.one_copy_per_document
